@@ -34,22 +34,22 @@ package hintdetail
 //@   ensures result == self.detail
 
 //@ func WithHint
-//@   props C10 C07 C12
+//@   props C10 C07 C12 C19
 //@   ensures err == nil ==> result == nil
 //@   ensures err != nil ==> typeis(result, *withHint) && result.(*withHint).cause == err && result.(*withHint).hint == msg
 
 //@ func WithHintf
-//@   props C10
+//@   props C10 C19
 //@   ensures err == nil ==> result == nil
 //@   ensures err != nil ==> typeis(result, *withHint) && result.(*withHint).cause == err
 
 //@ func WithDetail
-//@   props C10 C07 C12
+//@   props C10 C07 C12 C19
 //@   ensures err == nil ==> result == nil
 //@   ensures err != nil ==> typeis(result, *withDetail) && result.(*withDetail).cause == err && result.(*withDetail).detail == msg
 
 //@ func WithDetailf
-//@   props C10
+//@   props C10 C19
 //@   ensures err == nil ==> result == nil
 //@   ensures err != nil ==> typeis(result, *withDetail) && result.(*withDetail).cause == err
 
